@@ -11,7 +11,7 @@ from prosemirror.model import Node
 
 ID = "C09"
 CORR_MODULE = "Corr.C09"
-LEVEL = "exploration"
+LEVEL = "proof"
 SHARD = 150
 
 
